@@ -123,6 +123,10 @@ func init() {
 		e.shapeDef(s, cleaner, "clean", "cleanShape")
 		e.shapeDef(s, sqlc, "CachedConn.ExecCtx", "execShape")
 		e.shapeDef(s, sqlc, "CachedConn.QueryRowIndexCtx", "queryRowIndexShape")
+		const flight = "core/syncx/singleflight.go"
+		e.shapeDef(s, flight, "flightGroup.DoEx", "doExShape")
+		e.shapeDef(s, flight, "flightGroup.createCall", "createCallShape")
+		e.shapeDef(s, flight, "flightGroup.makeCall", "makeCallShape")
 		c06Facts(s, e, opt, "newOptions", "newOptionsFacts")
 		c06Facts(s, e, node, "NewNode", "newNodeFacts", "NewUnstable")
 		c06Facts(s, e, node, "cacheNode.doGetCache", "doGetCacheFacts", "GetCtx", "processCache")
